@@ -438,7 +438,23 @@ InConsumeOnly(m, n) == \E j \in 0..Len(m.inp) : n.inp = SubSeq(m.inp, j + 1, Len
 PronounClearedOnExit(m, n) == m.st = "run" /\ m.K # <<>> /\ Head(m.K).f \in {"popscope", "loopAfter", "callRet"} /\ n.st = "run" => n.last = <<>>
 (* once the run has ended nothing changes *)
 Stopped(m, n) == m.st # "run" => n = m
+(* C08: output is written by `say` alone, one whole line per say (unless the writer fails, which ends the run); input is taken by   *)
+(* `listen` alone, and a successful listen takes exactly one line: what was unread before = that line, its line end (unless the     *)
+(* input ended) and what is unread after                                                                                            *)
+IsSayStep(m) == m.K # <<>> /\ Head(m.K).f = "sayK"
+IsListenStep(m) == m.K # <<>> /\ Head(m.K).f = "stmt" /\ Head(m.K).s.s = "listen"
+RECURSIVE Unread(_)
+Unread(q) == IF q = <<>> THEN "" ELSE Head(q) \o Unread(Tail(q))
+OnlySayWrites(m, n) == m.st = "run" /\ ~IsSayStep(m) => n.out = m.out
+OneLinePerSay(m, n) == m.st = "run" /\ IsSayStep(m) /\ n.st = "run" => Len(n.out) > Len(m.out) /\ EndsNl(n.out)
+OnlyListenReads(m, n) == m.st = "run" /\ ~IsListenStep(m) => n.inp = m.inp /\ n.buf = m.buf /\ n.rd = m.rd
+OneLinePerListen(m, n) ==
+  m.st = "run" /\ IsListenStep(m) /\ n.st = "run" =>
+    LET before == m.buf \o Unread(m.inp) after == n.buf \o Unread(n.inp)
+        k == FirstNl(before) IN
+    IF k = 0 THEN after = "" ELSE after = SubSeq(before, k + 1, Len(before))
 (* a fault ends the run at that step: no byte written, no read issued afterwards *)
-StepProps(m, n) == OutAppendOnly(m, n) /\ InConsumeOnly(m, n) /\ PronounClearedOnExit(m, n)
+StepProps(m, n) == /\ OutAppendOnly(m, n) /\ InConsumeOnly(m, n) /\ PronounClearedOnExit(m, n)
+                   /\ OnlySayWrites(m, n) /\ OneLinePerSay(m, n) /\ OnlyListenReads(m, n) /\ OneLinePerListen(m, n)
 
 =============================================================================
